@@ -96,13 +96,24 @@ class UpdateReferences:
       elif isinstance(elem, gfapy.OrientedLine):
         if elem.line is oldref:
           if hasattr(oldref, "is_compatible_direct") and \
-              newref is not None and \
-              not newref.is_compatible_direct(oldref.oriented_from,
-                                              oldref.oriented_to,
-                                              oldref.overlap):
-            # the link which takes the place of the placeholder link goes in
-            # the opposite direction
-            elem.orient = gfapy.invert(elem.orient)
+              newref is not None:
+            if self.record_type == "P" and \
+                lst is self._refs.get("links") and \
+                len(lst) == len(self._compute_required_links()):
+              # the direction follows from the step of the path itself (the
+              # placeholder may have been created for another path, with
+              # an unspecified overlap)
+              sfrom, sto, cigar = self._compute_required_links()[idx]
+              if newref.is_compatible_direct(sfrom, sto, cigar):
+                elem.orient = "+"
+              else:
+                elem.orient = "-"
+            elif not newref.is_compatible_direct(oldref.oriented_from,
+                                                oldref.oriented_to,
+                                                oldref.overlap):
+              # the link which takes the place of the placeholder link goes
+              # in the opposite direction
+              elem.orient = gfapy.invert(elem.orient)
           elem.line = newref
           found = True
     if newref is None and found:
